@@ -277,8 +277,15 @@ func min(a, b int) int {
 	return b
 }
 
+// ConformingClientSession is ValidSession(r, true) restricted to what a client that follows the
+// protocol can emit: every RPC is ended by the client (half-close, close, error or cancel) before
+// the next one starts.
+func ConformingClientSession(r *payload.SplitMix) []refwire.Frame { return session(r, true, true) }
+
 // ValidSession builds the frames of a plausible session in one direction.
-func ValidSession(r *payload.SplitMix, client bool) []refwire.Frame {
+func ValidSession(r *payload.SplitMix, client bool) []refwire.Frame { return session(r, client, false) }
+
+func session(r *payload.SplitMix, client, conforming bool) []refwire.Frame {
 	var fs []refwire.Frame
 	sid := uint64(1)
 	for rpc := 0; rpc < 1+r.Intn(3); rpc++ {
@@ -297,6 +304,16 @@ func ValidSession(r *payload.SplitMix, client bool) []refwire.Frame {
 			mid++
 		}
 		if client {
+			if r.Intn(5) == 0 {
+				// an RPC abandoned before its invoke was written (soft cancel between stream creation,
+				// metadata write and invoke write): optional metadata, then the cancel, never an invoke
+				if r.Intn(2) == 0 {
+					put(7, encodeMeta(map[string]string{"k": "v", "abandoned": "yes"}), false)
+				}
+				put(4, nil, true)
+				sid++
+				continue
+			}
 			if r.Intn(2) == 0 {
 				md, _ := encodeMeta(map[string]string{"k": "v", "a": "b"}), error(nil)
 				put(7, md, false)
@@ -306,7 +323,14 @@ func ValidSession(r *payload.SplitMix, client bool) []refwire.Frame {
 		for m := 0; m < r.Intn(4); m++ {
 			put(2, payload.Make(uint64(rpc), 0, 0, uint32(m), r.Intn(300)), false)
 		}
-		switch r.Intn(6) {
+		end := r.Intn(6)
+		if conforming && end >= 4 {
+			if end == 4 {
+				put(uint8(8+r.Intn(56)), []byte("future"), true)
+			}
+			end = r.Intn(4)
+		}
+		switch end {
 		case 0:
 			put(6, nil, false)
 		case 1:
